@@ -145,7 +145,9 @@ impl Table {
                 )?;
             }
         }
-        Ok(())
+        // Flush explicitly: if the writer is a buffered stream, an error
+        // while writing out its buffer on drop would go unnoticed.
+        writer.flush()
     }
 }
 
